@@ -12,12 +12,14 @@ const RELS: [&str; 4] = ["equal", "cwd-ancestor-of-base", "cwd-inside-base", "un
 const SHELLS: [&str; 6] = ["default", "bash -c", "argv-script", "/bin/sh  -e   -c", "bash --norc -c", "argv-script extra1 extra2"];
 const NAME_SHAPES: [(&str, &str); 3] = [("s.txt.txtpp", "s.txt"), ("s.txtpp.txt", "s.txt"), ("s.txtpp", "s")];
 /// (name, source lines of the command directive, expected stdout under sh, the single argument the shell must see)
-const SHAPES: [(&str, &[&str], &str, &str); 5] = [
+const SHAPES: [(&str, &[&str], &str, &str); 6] = [
     ("stderr-is-not-output", &["-TXTPP#run echo out; echo err >&2"], "out\n", "echo out; echo err >&2"),
     ("empty-continuation-line", &["-TXTPP#run echo a", "-", "-  b  "], "a b\n", "echo a    b"),
     ("one-line", &["-TXTPP#run echo a  b"], "a b\n", "echo a  b"),
     ("three-lines", &["-TXTPP#run echo a", "-b", "-c"], "a b c\n", "echo a b c"),
     ("inner-double-space", &["-TXTPP#run echo \"a  b\""], "a  b\n", "echo \"a  b\""),
+    // stdout that is not valid UTF-8 still becomes the directive output (how the invalid byte is rendered is not compared)
+    ("stdout-not-utf8", &["-TXTPP#run printf 'a\\377b\\n'"], "a?b\n", "printf 'a\\377b\\n'"),
 ];
 
 /// child process: run the library entry point from the current working directory
@@ -253,7 +255,8 @@ fn run_case(rep: &Report, c: &ConfCase) {
                     rep.violate("txtpp-file", format!("{:?}: TXTPP_FILE={tf:?} does not designate {}", c, src.display()), case_json(c));
                 }
                 let rest: String = lines.iter().skip(2).map(|x| format!("{x}\n")).collect();
-                if rest != format!("{}END\n", SHAPES[s].2) {
+                let rest_ok = if SHAPES[s].0 == "stdout-not-utf8" { rest.starts_with('a') && rest.ends_with("b\nEND\n") && rest.lines().count() == 2 } else { rest == format!("{}END\n", SHAPES[s].2) };
+                if !rest_ok {
                     rep.violate("command-text", format!("{:?}: command printed {:?}, expected {:?}", c, rest, SHAPES[s].2), case_json(c));
                 }
             }
@@ -369,7 +372,7 @@ pub fn run_c17(tier: &str) -> i32 {
     let rep = Report::new("C17", tier);
     let cs = cases();
     rep.set("cases_planned", json!(cs.len()));
-    rep.set("bounds", json!("depth 0..3 x {library x 4 base/cwd relations, CLI x cwd=base} x 6 shells (default, bash -c, shells with several arguments and repeated blanks, an argv-echo script with and without extra arguments) x three source-name shapes x (5 command shapes + exit codes 0/1/7 + death by SIGKILL); TXTPP_FILE guard in 4 modes; a source that calls txtpp; a source with commands that enters the run only as a dependency (below / above the depender, depth 0..3, every base/cwd relation, library and CLI)"));
+    rep.set("bounds", json!("depth 0..3 x {library x 4 base/cwd relations, CLI x cwd=base} x 6 shells (default, bash -c, shells with several arguments and repeated blanks, an argv-echo script with and without extra arguments) x three source-name shapes x (6 command shapes + exit codes 0/1/7 + death by SIGKILL); TXTPP_FILE guard in 4 modes; a source that calls txtpp; a source with commands that enters the run only as a dependency (below / above the depender, depth 0..3, every base/cwd relation, library and CLI)"));
     rep.assume("TXTPP_FILE 'designates' the source if it resolves to it as an absolute path, relative to the base directory or relative to the command's directory (Q5)");
     rep.st(4 * 4 * 6);
     sharded_dyn(&rep, par_threads(), |k, _n, next, rep| {
